@@ -3,3 +3,4 @@ import StirVerif.C05.ProofsTextbook
 import StirVerif.C05.ProofsSetup
 import StirVerif.C05.ProofsDeriv
 import StirVerif.C05.ProofsReuse
+import StirVerif.C05.ProofsSetters
